@@ -85,6 +85,17 @@ def check(case):
     kmax = max(used(j) for j, v in jdd.items() if v > 0)
     if kmax not in (high - 1, high):
         raise Violation("range-top", f"largest overall degree present is {kmax}, range is {case['range']}")
+    if case["loader"] == "delta":
+        # how the upper end is read must not depend on the target: probe the same loader with the target at
+        # the bottom of the range (inside under either reading)
+        q = dict(p)
+        q[JN.TARGET_K] = low
+        q.pop(JN.JOINT_DEGREE_TYPE, None)
+        probe = call("construct-probe", JointDegreeDelta, q)
+        ptop = max(used(j) for j, v in probe.jdd.items() if v > 0)
+        if ptop != kmax:
+            raise Violation("range-top-depends-on-target", f"with target {case['target']} the largest overall degree is {kmax}, "
+                                                           f"with target {low} it is {ptop} (range {case['range']})")
     ks = list(range(low, kmax + 1))
     want = {}
     for k in ks:
